@@ -60,7 +60,7 @@ let handle (toks: string list) : string =
       let b x = x in
       let pr = (match fs with
         | "dos33" | "dos32" -> mkparams (ni total) (ni lo) false (ni "1") true false (ni rootcap) false (ni "0") (ni "0") true (ni "0")
-        | "prodos" -> mkparams (ni total) (ni lo) false (ni "2") true true (ni rootcap) true (ni subfirst) (ni submore) true (ni "0")
+        | "prodos" -> mkparams (ni total) (ni lo) false (ni "2") true false (ni rootcap) true (ni subfirst) (ni submore) true (ni "0")
         | "pascal" -> mkparams (ni total) (ni lo) true (ni "0") false false (ni rootcap) false (ni "0") (ni "0") false (ni "0")
         | "fat" -> mkparams (ni total) (ni lo) false (ni "0") false false (ni rootcap) true (ni subfirst) (ni submore) true (ni "0")
         | _ -> mkparams (ni total) (ni lo) false (ni "0") true false (ni rootcap) false (ni "0") (ni "0") true (ni extslots)) in
